@@ -99,6 +99,18 @@ SCRIPTED = [
     ("6k1/6p1/8/7Q/8/8/1r6/6K1 w - - 0 1", ["h5e8", "g8h7", "e8h5", "h7g8", "h5e8"]),
     ("6k1/1R6/8/8/7q/8/6P1/6K1 b - - 0 1", ["h4e1", "g1h2", "e1h4", "h2g1", "h4e1"]),
     ("r3k3/1P6/8/8/8/8/8/4K3 w q - 0 1", ["b7a8b", "e8d8"]),
+    # a double push beside an enemy pawn answered at once by a promotion: the en-passant file must be gone
+    ("7k/8/8/4P3/2p5/K7/3P3p/8 w - - 0 1", ["d2d4", "h2h1q", "a3b4"]),
+    ("7k/8/8/4P3/2p5/K7/3P3p/8 w - - 0 1", ["d2d4", "h2h1n", "a3b2"]),
+    ("8/3p3P/k7/2P5/4p3/8/8/7K b - - 0 1", ["d7d5", "h7h8q", "a6b5"]),
+    ("6r1/3p3P/k7/2P5/4p3/8/8/7K b - - 0 1", ["d7d5", "h7g8r", "a6b5"]),
+    # a rook or a king takes a rook on its home square: the victim's right goes, whoever captures
+    ("r3k2r/8/8/8/8/8/8/R3K2R w KQkq - 0 1", ["a1a8", "e8e7"]),
+    ("r3k2r/8/8/8/8/8/8/R3K2R w KQkq - 0 1", ["h1h8", "e8e7"]),
+    ("r3k2r/8/8/8/8/8/8/R3K2R b KQkq - 0 1", ["a8a1", "e1e2"]),
+    ("r3k2r/8/8/8/8/8/8/R3K2R b KQkq - 0 1", ["h8h1", "e1e2"]),
+    ("8/8/8/8/8/8/6k1/4K2R b K - 0 1", ["g2h1", "e1e2"]),
+    ("4k2r/6K1/8/8/8/8/8/8 w k - 0 1", ["g7h8", "e8e7"]),
     ("4k3/8/8/8/8/8/1p6/R3K3 b Q - 0 1", ["b2a1q", "e1e2"]),
     ("4k3/8/8/8/8/8/6p1/4K2R b K - 0 1", ["g2h1r", "e1e2"]),
 ]
